@@ -54,6 +54,11 @@ func (e Entry) Seq() string {
 // IsMarker: an affected result — it occupies positions of its sequence but is nothing to dispatch.
 func (e Entry) IsMarker() bool { return e.Kind == KAff || e.Kind == KChAff }
 
+// Soft: the coverage requirements do not apply — a marker, or an update covering no position
+// (count 0, e.g. updateReadChannelInbox): a lost push of it is not returned by any later difference.
+// When a difference does carry it, it must be dispatched like everything the difference carries.
+func (e Entry) Soft() bool { return e.Kind != KPlain && (e.IsMarker() || e.Count == 0) }
+
 func (e Entry) inChan(c int64) bool {
 	return (e.Kind == KChMsg || e.Kind == KChOther || e.Kind == KChAff) && e.Chan == c
 }
@@ -300,6 +305,8 @@ func (w *World) channelDifference(c int64, pts int) tg.UpdatesChannelDifferenceC
 	defer w.mu.Unlock()
 	seq := "c" + strconv.FormatInt(c, 10)
 	sp := w.chanState(c)
+	// a new request: whatever was answered before has been processed completely
+	w.inDiff[c] = false
 	if w.ChanTooLong[c] {
 		w.ChanTooLong[c] = false
 		w.genuineTL[c]++
